@@ -53,9 +53,41 @@ def _values(attr, n, proj):
     return [proj(attr[i]) for i in range(n)]
 
 
-def compute(m, name, mode, zb, persistent, dense):
+# homogeneity degree of each quantity in the size of the mesh (positions and lengths 1, areas 2, volumes 3, angles and directions 0);
+# on a mesh shrunk by 10^k every value is multiplied by 10^(k * degree) before it is projected.  The specification checks this table (HomDeg).
+DEGREE = {"edge_length": 1, "edge_middle_point": 1, "face_area": 2, "face_barycenter": 1, "face_circumcenter": 1, "cell_volume": 3, "cell_barycenter": 1,
+          "barycenter": 1, "total_area": 2, "mean_face_area": 2, "mean_edge_length": 1, "mean_cell_volume": 3}
+
+
+class _Scaled(object):
+    """an attribute read through the factor that brings a shrunk mesh back to lattice size"""
+    def __init__(self, attr, f):
+        self.attr, self.f = attr, f
+
+    def __getitem__(self, i):
+        return np.asarray(self.attr[i], dtype=float) * self.f
+
+
+def compute(m, name, mode, zb, persistent, dense, k10=0):
     import mouette as M
-    A = M.attributes
+    A0 = M.attributes
+    f_ = 10.0 ** (k10 * DEGREE.get(name, 0))
+
+    class A(object):            # every attribute function, its result read through the factor
+        def __getattr__(self, fn):
+            real = getattr(A0, fn)
+
+            def call(*a, **kw):
+                r = real(*a, **kw)
+                if f_ == 1.0:
+                    return r
+                if isinstance(r, (float, int, np.floating)):
+                    return float(r) * f_
+                if isinstance(r, np.ndarray):
+                    return r * f_
+                return _Scaled(r, f_)
+            return call
+    A = A()
     kw = dict(persistent=bool(persistent), dense=bool(dense))
     nE, nF, nV = len(m.edges), len(m.faces) if hasattr(m, "faces") else 0, len(m.vertices)
     nC = len(m.face_corners) if hasattr(m, "face_corners") else 0
@@ -125,7 +157,9 @@ def exec_case(case):
     import c09
     g = dict(case["given"])
     kind = "volume" if g.get("C0") else "surface"
-    m = c09.build({"kind": kind, "P": g["P"], "F": g.get("F0", []), "C": g.get("C0", [])})
+    k10 = g.setdefault("scale10", 0)
+    sc = 10.0 ** (-k10)
+    m = c09.build({"kind": kind, "P": [[c * sc for c in p] for p in g["P"]] if k10 else g["P"], "F": g.get("F0", []), "C": g.get("C0", [])})
     g["F"] = [[int(v) for v in f] for f in m.faces] if hasattr(m, "faces") else []
     g["E"] = [[int(a), int(b)] for a, b in m.edges]
     g["C"] = [[int(v) for v in c] for c in m.cells] if hasattr(m, "cells") else []
@@ -137,7 +171,7 @@ def exec_case(case):
             try:
                 T.rotate(m, np.array(MATS[ev["mi"] - 1], dtype=float))
                 T.scale(m, float(ev["s"]))
-                T.translate(m, Vec(*[float(c) for c in ev["t"]]))
+                T.translate(m, Vec(*[float(c) * sc for c in ev["t"]]))
             except Exception as ex:
                 e["exc"] = type(ex).__name__ + ":" + str(ex)[:60]
         else:
@@ -145,8 +179,10 @@ def exec_case(case):
             e.setdefault("zb", 0)
             e["vals"] = []
             e["n"] = 0
+            e["deg"] = 0
             try:
-                e["vals"] = compute(m, ev["name"], e["mode"], e["zb"], ev["persistent"], ev["dense"])
+                e["deg"] = DEGREE.get(ev["name"], 0)
+                e["vals"] = compute(m, ev["name"], e["mode"], e["zb"], ev["persistent"], ev["dense"], k10)
                 e["n"] = len(e["vals"])
             except KeyError:
                 raise
@@ -240,6 +276,10 @@ def run(ctx):
         for qn, modes in qs:
             evs.append({"op": "quantity", "name": qn, "mode": modes[-1], "zb": 1, "persistent": 0, "dense": 0})
         cases.append({"id": "%s-%d-stored-twice" % (name, len(cases)), "given": {"P": P, "F0": F, "C0": C, "family": name}, "events": evs})
+        # the same shape 10^5 times smaller (areas ~1e-10, volumes ~1e-15): every quantity once, a move, every quantity again
+        once = [{"op": "quantity", "name": qn, "mode": md, "zb": 0, "persistent": 0, "dense": 1} for qn, modes in qs for md in modes]
+        cases.append({"id": "%s-%d-tiny" % (name, len(cases)), "given": {"P": P, "F0": F, "C0": C, "family": name, "scale10": 5},
+                      "events": once + [{"op": "transform", "mi": 2, "s": 1, "t": [1, -2, 1]}] + once})
     obs = ctx.execute("c07", "exec_case", cases, chunksize=2)
     ctx.judge("C07_Trace", "C07_Trace.cfg", obs, "quantities-on-lattices", "c07", "exec_case", batch_events=120)
     ctx.exhaustive = False
